@@ -42,6 +42,8 @@ def fix(sc):
         sc['indices'] = [int(i) for i in sc['indices']]
     if 'perm' in sc and sc['perm'] is not None:
         sc['perm'] = [int(i) for i in sc['perm']]
+    if 'dup' in sc and sc['dup'] is not None:
+        sc['dup'] = [int(v) for v in sc['dup']]
     for k in ('prec', 'bins'):
         if k in sc:
             sc[k] = int(sc[k])
@@ -152,7 +154,20 @@ def func_scen(prop, tier, rng):
             for _ in range(rng.randint(1, 3)):
                 a = rng.choice(hp[:-1]); b = rng.choice([h for h in hp if h > a])
                 ivs_.append([a, b])
-            yield {'funcs': [rfunc('disc') for _ in range(k)], 'intervals': ivs_, 'k': rng.randint(0, 3)}
+            fs_ = [rfunc('disc') for _ in range(k)]
+            if rng.random() < 0.35:
+                # events sitting exactly on the edges (a spike on t_start / t_end): they count when no interval is
+                # given and are outside every open interval that ends there
+                def edge_ev(f):
+                    x, y, mp = [list(c) for c in f]
+                    if rng.random() < 0.7:
+                        x = x[:-1] + [x[-1], x[-1]]; y = y[:-1] + ['1', y[-1]]; mp = mp[:-1] + ['1', mp[-1]]
+                    if rng.random() < 0.5:
+                        x = [x[0], x[0]] + x[1:]; y = [y[0], '1'] + y[1:]; mp = [mp[0], '1'] + mp[1:]
+                    return [x, y, mp]
+                fs_ = [edge_ev(f) for f in fs_]
+                ivs_ = ivs_ + [[Fr(0), Fr(T)]]
+            yield {'funcs': fs_, 'intervals': ivs_, 'k': rng.randint(0, 3)}
 
 
 def scenario_of_case(prop, op, fields):
@@ -343,6 +358,33 @@ def scenarios(prop, tier, rng):
         if own and n % own == 0:
             v = own0_variant(prop, sc, n // own)
             if v is not None:
+                yield v
+        if prop in ('C04', 'C06') and n % 5 == 0 and 'raw' not in sc and 'variant' not in sc and len(sc['trains']) >= 3 \
+                and 'indices' not in sc and 'perm' not in sc or (prop in ('C04', 'C06') and n == 1):
+            # the first TWO trains on narrower edges of their own, the others on a recording ten times longer;
+            # every second time two one-spike trains, whose window is limited by the recording length only
+            v = dict(sc)
+            v.pop('indices', None); v.pop('perm', None); v.pop('interval', None)
+            tr_ = [(list(s_), a_, b_) for s_, a_, b_ in sc['trains']]
+            TS, TE = tr_[0][1], tr_[0][2]
+            if (n // 5) % 2 == 0 or len(tr_) < 3:
+                third = tr_[2:] if len(tr_) >= 3 else [([TS + (TE - TS) / 2], TS, TE)]
+                tr_ = [([TS + (TE - TS) / 5], TS, TE), ([TS + 4 * (TE - TS) / 5], TS, TE)] + third
+                v['kw'] = dict(sc.get('kw', {}), mrts=0, max_tau=0)
+            TEw = TE + 9 * (TE - TS)
+            v['trains'] = [(s_, TS, TEw) for s_, _, _ in tr_]
+            v['own01'] = [[TS, TE], [TS, TE]]
+            v['variant'] = 'first two trains on their own (ten times shorter) edges'
+            yield v
+        if prop in ('C01', 'C02', 'C03', 'C05', 'C07') and n % 7 == 0 and 'raw' not in sc and 'variant' not in sc:
+            # one spike time listed twice in one of the first two trains (the implementation gets the repeated
+            # time, the oracle's definitions the clean train): reconciliation is on by default in every call form
+            ks = [k for k in (0, 1) if k < len(sc['trains']) and sc['trains'][k][0]]
+            if ks:
+                k = ks[(n // 7) % len(ks)]
+                v = dict(sc)
+                v['dup'] = [k, (n // 7) % len(sc['trains'][k][0])]
+                v['variant'] = 'spike %d of train %d listed twice' % (v['dup'][1], k)
                 yield v
         if prop == 'C14' and n % 4 == 0 and 'raw' not in sc:
             # a repeated spike time inside one train (sorted, same edges): every call form
